@@ -91,7 +91,7 @@ func reachesRTUParser(c *Ctx, fn *ssa.Function) bool {
 }
 
 func checkC12(c *Ctx, r *Report) {
-	r.floor("R12.1", 10)
+	r.floor("R12.1", 6) // stores to the two fields: at least three writers (the pinned tree has 10 store sites; helpers shared by constructors reduce the count)
 	r.floor("R12.2", 2)
 	r.floor("R12.3", 2)
 	crc := c.fnMust("packet", "CRC16")
